@@ -11,6 +11,7 @@ snapshots are needed.  Obligations are recorded with the path condition in force
 from __future__ import annotations
 
 import ast
+import os
 import builtins
 import operator
 import sys
@@ -88,7 +89,10 @@ class Obligation:
 class PathCtx:
     """state of one path of one run"""
 
+    unknown_feasibility = 0
+
     def __init__(self, prefix, branch_timeout_ms=2000):
+        self.branch_timeout_ms = branch_timeout_ms
         self.prefix = list(prefix)
         self.decisions = []
         self.pc_i = []
@@ -141,11 +145,28 @@ class PathCtx:
         """both fact sets describe the same state: infeasible if either is unsatisfiable"""
         if f_b is None:
             f_b = f_i
-        rb = self.solver_b.check(*([f_b] if f_b is not None else []))
+        rb = self._check(self.solver_b, f_b)
         if rb == z3.unsat:
             return False
-        ri = self.solver.check(*([f_i] if f_i is not None else []))
+        ri = self._check(self.solver, f_i)
         return ri != z3.unsat
+
+    def _check(self, solver, f):
+        """an undecided feasibility query (z3's timeout is wall time, so a loaded machine produces them) is
+        asked once more with five times the budget before the branch is conservatively treated as feasible"""
+        args = [f] if f is not None else []
+        r = solver.check(*args)
+        if r == z3.unknown:
+            PathCtx.unknown_feasibility += 1
+            if os.environ.get("VERIF_FEAS_LOG"):
+                with open(os.environ["VERIF_FEAS_LOG"], "a") as fh:
+                    fh.write(f"{self.unit}/{self.case}\n")
+            solver.set("timeout", self.branch_timeout_ms * 5)
+            try:
+                r = solver.check(*args)
+            finally:
+                solver.set("timeout", self.branch_timeout_ms)
+        return r
 
     def assume_checked(self, f_i, f_b=None):
         self.assume(f_i, f_b)
